@@ -33,6 +33,9 @@ def optsOfJson (j : Json) : Except String Opts := do
 
 def actOfJson (j : Json) : Except String Act := do
   let op ← (← j.getObjVal? "op").getStr?
+  if op == "push" then return Act.push
+  if op == "pop" then return Act.pop
+  if op == "drop" then return Act.drop
   let k ← jstr j "k"
   match op with
   | "envSet" => pure (Act.envSet (← jbool j "force") (← jbool j "fwd") k (← jstr j "v"))
@@ -44,6 +47,7 @@ def actOfJson (j : Json) : Except String Act := do
 /-- ops:
 * `emit`   `{old,new,aliases,oldAliases,opts}` → `{cmds:[..], text}` | `{unmodelled:true}`
 * `sheval` `{env,text}` → `{env}` | `{none:true}`
+* `shevalf` `{env,funcs,text}` → `{env,funcs,out,status}` | `{none:true}` (functions, echo, double quotes, status)
 * `acts`   `{base,acts,pinned}` → `{old,cur}` -/
 def handle : Handler := fun j => do
   let op ← (← j.getObjVal? "op").getStr?
@@ -63,6 +67,38 @@ def handle : Handler := fun j => do
     match shEval env (← jstr j "text") with
     | none => pure (Json.mkObj [("none", true)])
     | some e => pure (Json.mkObj [("env", envToJson e)])
+  | "shevalf" =>
+    let env ← envOfJson (← j.getObjVal? "env")
+    let fs ← envOfJson (← j.getObjVal? "funcs")
+    match shEvalF env fs (← jstr j "text") with
+    | none => pure (Json.mkObj [("none", true)])
+    | some r => pure (Json.mkObj [("env", envToJson r.sh.env), ("funcs", envToJson r.funcs), ("out", ofStrs r.out),
+                                  ("status", Json.num (JsonNumber.fromNat r.status))])
+  | "csh" =>
+    -- the csh reading (spec from the manual) of the variable commands emitted for {old, new, opts}, applied to `base`
+    let old ← optOfJson (← j.getObjVal? "old")
+    let new ← envOfJson (← j.getObjVal? "new")
+    let base ← envOfJson (← j.getObjVal? "base")
+    let o ← optsOfJson (← j.getObjVal? "opts")
+    match cshApplyAll (emitVars o old new) base with
+    | none => pure (Json.mkObj [("none", true)])
+    | some e => pure (Json.mkObj [("env", envToJson e)])
+  | "cli" =>
+    let o ← j.getObjVal? "cli"
+    let w ← j.getObjVal? "world"
+    let c : Cli := { help := ← jbool o "help", version := ← jbool o "version", list := ← jbool o "list",
+                     unsetup := ← jbool o "unsetup", nodepend := ← jbool o "nodepend",
+                     maxDepth := (← (← o.getObjVal? "maxDepth").getInt?),
+                     tablefile := ← jstrOpt o "tablefile", productDir := ← jstrOpt o "productDir",
+                     args := ← jstrs o "args" }
+    let wd : CliWorld := { tablefileExists := ← jbool w "tablefileExists", upsIsDir := ← jbool w "upsIsDir",
+                           tables := ← jstrs w "tables", found := ← jbool w "found" }
+    let inner ← match (← (← j.getObjVal? "inner").getStr?) with
+      | "returned" => pure (Inner.returned (← jstrs j "cmds"))
+      | "EupsException" => pure Inner.eupsException
+      | _ => pure Inner.otherException
+    let r := runCli c wd inner
+    pure (Json.mkObj [("stdout", ofStrOpt r.stdout), ("status", Json.num (JsonNumber.fromNat r.status))])
   | "acts" =>
     let base ← envOfJson (← j.getObjVal? "base")
     let acts ← (← jarr j "acts").mapM actOfJson
